@@ -4,6 +4,7 @@ import json, os, shutil, subprocess, sys, tempfile, time
 ROOT = os.path.dirname(os.path.abspath(__file__))
 CRASH = os.path.join(ROOT, "crash")
 REPO = os.environ.get("VERIF_REPO", "/repo")
+OUTROOT = "/tmp/scratch/verif-out" if os.path.realpath(REPO) != "/repo" else ROOT
 GO = "go1.26.8"
 
 
@@ -77,9 +78,9 @@ def main(a, meta):
                     if matched:
                         knownhits.setdefault(matched["id"], [matched, 0])[1] += 1
                         continue
-                    os.makedirs(os.path.join(ROOT, "replays"), exist_ok=True)
+                    os.makedirs(os.path.join(OUTROOT, "replays"), exist_ok=True)
                     name = "C19-%s-k%d.json" % (r["scenario"]["name"].replace(" ", "_").replace("=", "").replace("(", "").replace(")", "").replace(">", ""), pt["k"])
-                    path = os.path.join(ROOT, "replays", name)
+                    path = os.path.join(OUTROOT, "replays", name)
                     json.dump({"property": pid, "scenario": r["scenario"], "k": pt["k"], "before_syscall": pt.get("before_syscall"),
                                "detail": pt.get("detail"), "dir_after": pt.get("dir_after"), "syscalls": r.get("syscalls")}, open(path, "w"), indent=1)
                     violations.append((path, r["scenario"]["name"], pt))
@@ -101,8 +102,8 @@ def main(a, meta):
             }
             if trouble:
                 ev["coverage"]["machinery_trouble"] = trouble[:5]
-            os.makedirs(os.path.join(ROOT, "evidence"), exist_ok=True)
-            json.dump(ev, open(os.path.join(ROOT, "evidence", pid + ".json"), "w"), indent=1, sort_keys=True)
+            os.makedirs(os.path.join(OUTROOT, "evidence"), exist_ok=True)
+            json.dump(ev, open(os.path.join(OUTROOT, "evidence", pid + ".json"), "w"), indent=1, sort_keys=True)
         for k, (kf, n) in sorted(knownhits.items()):
             print("KNOWN-FINDING: property=%s %s [%s; %d crash points this run]" % (pid, kf["what"], k, n))
         for path, name, pt in violations:
